@@ -131,6 +131,11 @@ def run(ctx):
         ctx.check(bool(a) and a["align"] == 8 and (a.get("tail") or {}).get("off") == F.size_of(h["self"]), "K5", "layout:" + h["self_name"],
                   "size_of_val(&DynSizedStructure<%s>) = round8(%s + payload_len)" % (h["self_name"], F.size_of(h["self"])), (a or {}).get("span", ""),
                   how="align 8, tail at header size", why=str(a and a.get("tail")))
+    if ctx.tier == "thorough":
+        from .. import witness
+        witness.check(ctx, [("K6aCastOtherHeader", "K6: cast::<T>() rejects a T with another header type"),
+                            ("K6bGetTagOtherIdType", "K6: get_tag::<T>() rejects a T with another ID type"),
+                            ("K6cCastNotATag", "K6: cast::<T>() needs T: MaybeDynSized")], rule="K6")
     ctx.note("type-level part (K6: cast/get_tag reject a T with another header or ID type) is a compile-fail witness run in the thorough tier")
     return ctx.finish(
         "other",
